@@ -947,7 +947,13 @@ def find_distributed_partition(
     sent_ary_to_name: dict[Array, str] = {}
     for ary in sent_arrays:
         pid = stored_ary_to_part_id[ary]
-        name = gen_array_name(ary)
+        if ary in recvd_ary_to_name:
+            # Received data that is sent on unchanged: the part output holding
+            # the data to be sent needs a name of its own, since received names
+            # must not be part outputs.
+            name = array_name_gen()
+        else:
+            name = gen_array_name(ary)
         sent_ary_to_name[ary] = name
         name_to_output_per_part[pid][name] = ary
 
